@@ -25,6 +25,7 @@ FAST = bool(os.environ.get("C12_FAST"))       # development (mutant sweeps): ski
 DEV = bool(os.environ.get("VERIF_DEV"))      # development: serial, 2 TLC workers, 3 sessions at a time
 FLAGS = ["SeqUnderLock", "RespondAfter", "FwdHonoursTerm", "InitViaQueue", "ClearCache"]
 ASIS = {"a": "WireSeqOrdered", "b": "OneResponsePerRequest", "c": "NoEventAfterTerminated",
+        "f": "EventsOnceAndCausal",      # f = mutation family DrainKeepsTerm (DapWire_mut_stale.cfg), not a defect of /repo
         "d": "NoEventAfterTerminated", "e": "EventsOnceAndCausal"}
 PROP_OF = {
     "seq_out_of_order": "WireSeqOrdered",
@@ -59,11 +60,21 @@ def beh_from_alias(out):
     return json.loads(vlib.tla_unescape(ms[-1]))
 
 
+def asis_keys(tier):
+    """a, b, d, e are repaired in /repo (fix: commits): their counterexamples are replayed in the thorough tier only."""
+    return ["c", "f"] if tier == "quick" else list(ASIS)
+
+
+def asis_cfg(k):
+    return "DapWire_mut_stale.cfg" if k == "f" else f"DapWire_asis_{k}.cfg"
+
+
 def run_models(tier, workers_each, sim):
     jobs = {"fixed": ("DapWire_fixed.cfg" if tier == "quick" else "DapWire_fixed_thorough.cfg",
                       dict(coverage=(tier == "thorough")))}
-    for k in ASIS:
-        jobs["asis_" + k] = (f"DapWire_asis_{k}.cfg", {})
+    for k in asis_keys(tier):
+        jobs["asis_" + k] = (asis_cfg(k), {})
+    jobs["relaunch"] = ("DapWire_relaunch.cfg" if tier == "quick" else "DapWire_relaunch_thorough.cfg", dict(coverage=True))
     if tier == "thorough":
         jobs["fixed_full"] = ("DapWire_fixed_full.cfg", {})     # 3 requests, full universe, 2 lines per forwarder
     if FAST:
@@ -76,7 +87,7 @@ def run_models(tier, workers_each, sim):
         return name, vlib.tlc("DapWireMC", cfg, workers=w, heap="3g", timeout=1500, name=f"c12-{name}", **kw)
 
     # registered runs: three chains next to each other (4 + 2 + 2 = 8 TLC workers): the big (E) run, the small
-    # as-written runs, and the largest as-written run followed by the G simulation
+    # counterexample runs, and the relaunch enumeration followed by the G simulation
     if DEV:
         for name in jobs:
             res[name] = one(name)[1]
@@ -84,8 +95,8 @@ def run_models(tier, workers_each, sim):
         return res
     with cf.ThreadPoolExecutor(max_workers=3) as ex:
         big = ex.submit(one, "fixed") if "fixed" in jobs else None
-        small = ex.submit(lambda: [one(n) for n in jobs if n not in ("fixed", "asis_e")])
-        third = ex.submit(lambda: (one("asis_e"), simulate_behaviours(*sim)))
+        small = ex.submit(lambda: [one(n) for n in jobs if n not in ("fixed", "relaunch")])
+        third = ex.submit(lambda: (one("relaunch"), simulate_behaviours(*sim)))
         if big:
             res["fixed"] = big.result()[1]
         for name, r in small.result():
@@ -423,7 +434,7 @@ def run(rep, tier, replay):
             exe, models = fb.result(), fm.result()
         if FAST:                     # development only: no big (E) run; numbers of a small run stand in
             import copy
-            models["fixed"] = copy.copy(models["asis_e"])
+            models["fixed"] = copy.copy(models["asis_f"])
             models["fixed"].violated = None
         fixed = models["fixed"]
         vlib.tlc_expect_ok(fixed, "DapWire fixed (E)")
@@ -440,7 +451,8 @@ def run(rep, tier, replay):
                 raise vlib.ToolError(f"vacuous actions in DapWire_fixed: {vac}")
         scripts = []
         cex = {}
-        for k, inv in ASIS.items():
+        for k in asis_keys(tier):
+            inv = ASIS[k]
             r = models["asis_" + k]
             vlib.tlc_expect_ok(r, f"DapWire as written ({k})")
             beh = beh_from_alias(r.out) if r.violated else None
@@ -448,9 +460,28 @@ def run(rep, tier, replay):
                 raise vlib.ToolError(f"as-written model ({k}) no longer violates {inv} (got {r.violated}); "
                                      "update DapWire.tla/known findings")
             cex[k] = beh
-            s = script_from_beh(beh, puppet, f"cex-{k}", lines=(1, 1, 1, 1) if k in "ac" else (0, 0, 0, 0))
+            s = script_from_beh(beh, puppet, f"cex-{k}", lines=(1, 1, 1, 1) if k in "acf" else (0, 0, 0, 0))
             s["origin"] = f"counterexample({k}:{inv})"
             scripts.append(s)
+        # relaunch histories (terminated -> requests that enqueue while terminated -> launch -> run to exit),
+        # enumerated by TLC from the model of the current code; ExecEnqTerm must have fired
+        rel = models["relaunch"]
+        vlib.tlc_expect_ok(rel, "DapWire relaunch (G)")
+        if rel.violated:
+            raise vlib.ToolError(f"model of the current code violates {rel.violated} on a relaunch history\n" + rel.out[-1500:])
+        if rel.coverage.get("ExecEnqTerm", (0, 0))[1] == 0:
+            raise vlib.ToolError("vacuous: ExecEnqTerm never fired in the relaunch enumeration")
+        seen_rel = {}
+        for b in vlib.printed(rel.out, "BEH"):
+            if isinstance(b, dict):
+                seen_rel.setdefault(json.dumps(b["reqs"]), b)
+        if len(seen_rel) < 10:
+            raise vlib.ToolError(f"relaunch enumeration printed only {len(seen_rel)} histories")
+        for i, b in enumerate(seen_rel.values()):
+            sc = script_from_beh(b, puppet, f"rel-{i:03d}")
+            sc["origin"] = "relaunch history (TLC enumeration)"
+            scripts.append(sc)
+        stats["relaunch_histories"] = len(seen_rel)
         behs, rsim = models["G"]
         if len(behs) < nsim // 8:
             raise vlib.ToolError(f"G simulation printed only {len(behs)} finished behaviours of {nsim}")
@@ -531,7 +562,8 @@ def run(rep, tier, replay):
                    exhaustive=True,
                    as_written_counterexamples={k: {"invariant": ASIS[k], "requests": cex[k]["reqs"],
                                                    "writers": "".join(x[1] for x in cex[k]["order"]),
-                                                   "states": models["asis_" + k].distinct} for k in ASIS},
+                                                   "states": models["asis_" + k].distinct} for k in cex},
+                   relaunch_histories=stats.get("relaunch_histories"),
                    sim_behaviours=stats.get("sim_behaviours"), cover_features=stats.get("cover_features"),
                    cover_features_seen=stats.get("cover_features_seen"))
     else:
